@@ -151,6 +151,11 @@ func (tg *txnGen) txn(maxOps int) []TOp {
 			return ops
 		}
 	}
+	if g.Chance(0.07) {
+		if ops := tg.keepExisting(); len(ops) > 0 {
+			return ops
+		}
+	}
 	n := 1 + g.Intn(maxOps)
 	pending := map[string][]string{}
 	var ops []TOp
@@ -349,6 +354,51 @@ func (tg *txnGen) bounded() []TOp {
 			return []TOp{{Kind: "mutate", Table: t.Name, Where: byU, Muts: []Mut{{Col: c.Name, Mutator: "delete", Arg: keys}}}}
 		}
 		return []TOp{{Kind: "update", Table: t.Name, Where: byU, Row: map[string]val.Val{c.Name: v}}}
+	}
+	return nil
+}
+
+// keepExisting: the insert mutator adds only what is absent - a key already in a map keeps its value (also when that
+// value is the zero value of its type), an element already in a set changes nothing; the same column may be named by
+// two mutations of one operation.
+func (tg *txnGen) keepExisting() []TOp {
+	g := tg.g
+	for _, ti := range g.R.Perm(len(tg.sc.Tables)) {
+		t := &tg.sc.Tables[ti]
+		us := tg.uuidsOf(t.Name)
+		var cols []val.Col
+		for _, c := range t.Cols {
+			if c.K == 'm' && c.RefTable == "" && c.VRefTable == "" && !c.Immutable && c.Max != 1 {
+				cols = append(cols, c)
+			}
+		}
+		if len(us) == 0 || len(cols) == 0 {
+			continue
+		}
+		u := us[g.Intn(len(us))]
+		c := cols[g.Intn(len(cols))]
+		byU := []Cond{{Col: "_uuid", Fn: "==", Arg: val.VA(val.Uuid(u))}}
+		k1, k2 := gen.AtomN(c.KT, 1+g.Intn(tg.pool)), gen.AtomN(c.KT, 2+tg.pool)
+		zero, other := val.ZeroAtom(c.VT), gen.AtomN(c.VT, 1+g.Intn(tg.pool))
+		var ops []TOp
+		if g.Chance(0.7) {
+			// make sure the key is there, mapped to the zero value or to some value
+			v := zero
+			if g.Chance(0.3) {
+				v = gen.AtomN(c.VT, 2+g.Intn(tg.pool))
+			}
+			ops = append(ops, TOp{Kind: "update", Table: t.Name, Where: byU, Row: map[string]val.Val{c.Name: val.VM([2]val.Atom{k1, v})}})
+		}
+		muts := []Mut{{Col: c.Name, Mutator: "insert", Arg: val.VM([2]val.Atom{k1, other})}}
+		if g.Chance(0.5) {
+			// a second mutation of the same column in the same operation
+			muts = append(muts, Mut{Col: c.Name, Mutator: "insert", Arg: val.VM([2]val.Atom{k2, other})})
+		}
+		ops = append(ops, TOp{Kind: "mutate", Table: t.Name, Where: byU, Muts: muts})
+		if g.Chance(0.3) {
+			ops = append(ops, TOp{Kind: "select", Table: t.Name, Where: []Cond{{Col: c.Name, Fn: "includes", Arg: val.VM([2]val.Atom{k1, zero})}}, Cols: []string{c.Name}})
+		}
+		return ops
 	}
 	return nil
 }
